@@ -378,14 +378,18 @@ class Sig:
     def classify_switch(self, body, bb, guard, lab):
         """token for taking the edge labelled `lab` of a variant switch; None = no token"""
         adt = guard.get("adt") or ""
-        if not adt.endswith("ValueKind") and not adt.endswith("::OptionKind") and not getattr(self, "all_enums", False):
+        all_enums = getattr(self, "all_enums", False)
+        if not adt.endswith("ValueKind") and not adt.endswith("::OptionKind") and not all_enums:
             if adt not in getattr(self, "label_adts", ()):
                 return None
+        if all_enums and adt.split("::")[-1] in ("ControlFlow", "Result", "Poll"):
+            return None
+        extra = (adt.split("::")[-1],) if all_enums else ()
         if lab == "otherwise":
             named = set(x for (_t, x) in body.succ_labeled(bb) if x != "otherwise")
             rest = sorted(n for val, n in guard["labels"].items() if val not in named)
-            return ("@", "|".join(rest) if len(rest) <= 3 else "_")
-        return ("@", guard["labels"].get(lab, lab))
+            return ("@", "|".join(rest) if len(rest) <= 3 else "_") + extra
+        return ("@", guard["labels"].get(lab, lab)) + extra
 
 
 def _rename_roles(tokens, rmap):
